@@ -502,7 +502,51 @@ class Interp:
             except ContinueEx:
                 continue
 
+    @staticmethod
+    def dict_building_loop(st):
+        """`for T in IT: [if C: continue]* ; D[K] = V` (no else) -- the loop form of `{K: V for T in IT if not C ...}` merged into D.
+        Returns (dict name, key expr, value expr, [conditions]) or None."""
+        if st.orelse or not st.body:
+            return None
+        conds = []
+        for b in st.body[:-1]:
+            if isinstance(b, ast.If) and not b.orelse and len(b.body) == 1 and isinstance(b.body[0], ast.Continue):
+                conds.append(ast.UnaryOp(op=ast.Not(), operand=b.test))
+            else:
+                return None
+        last = st.body[-1]
+        if isinstance(last, ast.AnnAssign):
+            return None
+        if not (isinstance(last, ast.Assign) and len(last.targets) == 1 and isinstance(last.targets[0], ast.Subscript)
+                and isinstance(last.targets[0].value, ast.Name)):
+            return None
+        if not conds:
+            return None
+        return last.targets[0].value.id, last.targets[0].slice, last.value, conds
+
     def st_For(self, st, env, module, qual):
+        pat = self.dict_building_loop(st)
+        if pat is not None:
+            dname, kexpr, vexpr, conds = pat
+            try:
+                target = env.lookup(dname)
+            except KeyError:
+                target = None
+            if isinstance(target, IDict):
+                # evaluated like the equivalent comprehension: symbolic skip conditions become conditional entries instead of
+                # 2^n paths; the entries are merged into the dict in iteration order
+                comp = ast.DictComp(key=kexpr, value=vexpr, generators=[ast.comprehension(target=st.target, iter=st.iter, ifs=conds, is_async=0)])
+                ast.copy_location(comp, st)
+                ast.fix_missing_locations(comp)
+                new = self.ex_DictComp(comp, env)
+                for k, v in new.d.items():
+                    self.setitem(target, k, v)
+                last = MISSING
+                for x in self.iterate(self.ev(st.iter, env)):      # the loop variables stay bound to the last item, as after a real loop
+                    last = x
+                if last is not MISSING:
+                    self.assign(st.target, last, env)
+                return
         it = self.ev(st.iter, env)
         if isinstance(it, (SList, RSeq)):
             ordinal = self.loop_ordinal(st)
@@ -1402,4 +1446,23 @@ class LoopCtx:
         return self.interp.ghost
 
     def local(self, name):
+        return self.env.vars[name]
+
+    def role(self, role, finder, default):
+        """the local variable playing `role` in the function being executed: found by what the code does with it (an AST
+        pattern), so that renaming a local is harmless; the historical name is only the fallback.  OutOfReach when absent."""
+        fn = self.interp.frames[-1][0] if self.interp.frames else None
+        cache = self.interp.__dict__.setdefault("_role_cache", {})
+        key = (id(fn), role)
+        if key not in cache:
+            name = None
+            if fn is not None and getattr(fn, "node", None) is not None:
+                try:
+                    name = finder(fn.node)
+                except Exception:
+                    name = None
+            cache[key] = name or default
+        name = cache[key]
+        if name not in self.env.vars:
+            raise OutOfReach("loop invariant: no local variable plays the role %r in %s" % (role, getattr(fn, "qualname", "?")))
         return self.env.vars[name]
